@@ -80,11 +80,14 @@ class FuncAnalysis:
             for n in ast.walk(fi.node):
                 if isinstance(n, ast.Global):
                     self.globals_declared.update(n.names)
+            self.imm_elems: Set[int] = set()      # parameters annotated as containers of immutable values (List[int], ...)
             for i, a in enumerate(fi.node.args.args):
                 if self._imm_annotation(a.annotation):
                     self.pts[a.arg] = set()
                 else:
                     self.pts[a.arg] = {("P", i, 0)}
+                    if self._imm_elements(a.annotation):
+                        self.imm_elems.add(i)
 
     # -- helpers ----------------------------------------------------------------------------
     @staticmethod
@@ -98,6 +101,21 @@ class FuncAnalysis:
             return True
         if t.startswith("Union[") and all(x.strip() in IMM_ANNOT for x in t[6:-1].split(",")):
             return True
+        return False
+
+    @staticmethod
+    def _imm_elements(ann: Optional[ast.expr]) -> bool:
+        """List[int], Sequence[float], Tuple[int, ...], Set[str], Dict[int, str], Iterable[int]: what the container holds cannot be mutated"""
+        if ann is None:
+            return False
+        t = core.src(ann).strip("'\"").replace(" ", "")
+        for pre in ("Optional[",):
+            if t.startswith(pre) and t.endswith("]"):
+                t = t[len(pre):-1]
+        for pre in ("List[", "Sequence[", "Tuple[", "Set[", "FrozenSet[", "Dict[", "Iterable[", "Collection[", "Mapping[", "list[", "tuple[", "set[", "dict["):
+            if t.startswith(pre) and t.endswith("]"):
+                inner = t[len(pre):-1]
+                return all(x in IMM_ANNOT or x == "..." for x in inner.split(","))
         return False
 
     def add(self, s: Set[AO], items) -> None:
@@ -116,6 +134,8 @@ class FuncAnalysis:
         if ao[0] in ("A", "R"):
             return self.cont.setdefault(ao, set())
         if ao[0] == "P":
+            if ao[2] == 0 and ao[1] in getattr(self, "imm_elems", ()):
+                return set()
             return {("P", ao[1], min(ao[2] + 1, 2))}
         if ao[0] == "G":
             return {("G", ao[1], min(ao[2] + 1, 2))}
@@ -462,6 +482,17 @@ class FuncAnalysis:
                 return {self.alloc(n, "instance", nm)}
             if nm in ("id", "hash"):
                 self.nondet.append((n.lineno, nm + "()"))
+            if nm == "getattr" and len(n.args) >= 2 and isinstance(n.args[1], ast.Constant) and isinstance(n.args[1].value, str):
+                out = self.attr_load(args[0], n.args[1].value)
+                if len(args) >= 3:
+                    out = out | args[2]
+                return out
+            if nm == "setattr" and len(n.args) == 3 and isinstance(n.args[1], ast.Constant) and isinstance(n.args[1].value, str):
+                fake = ast.Attribute(value=n.args[0], attr=n.args[1].value, ctx=ast.Store())
+                ast.copy_location(fake, n)
+                for o in args[0]:
+                    self.mutate(o, f"attr-store:{n.args[1].value}", n)
+                    self.gain(o, args[2])
             return set()
         if cs.kind == "builtin-method":
             recv = self.ev(n.func.value)
